@@ -863,6 +863,73 @@ func Run(r *ev.Run) {
 		}
 	}
 
+	// ---- B12 (round 13) what is INSIDE the known service parameters of an HTTPS record ----
+	// (a) ALPN ids are octet strings (RFC 9460 7.1.1: 1*255OCTET): commas, quotes, backslashes, NUL and 8-bit octets are part of
+	// the id and survive encode and decode; the presentation-format escaping of commas is nobody's business on the wire
+	for _, ids := range [][]string{{"a,b"}, {","}, {"h2", "a,b", "h3"}, {`a\,b`}, {`"`}, {"\x00"}, {"\xff\xfe"}, {"h2,h3"}, {" "}, {strings.Repeat(",", 255)}, {"=", ";"}} {
+		pm := dns.Message{ID: 12, QR: 1, Question: []dns.Question{{Name: "ids.example", Type: 65, Class: 1}}, Answer: []dns.RR{{Name: "ids.example", Type: 65, Class: 1, TTL: 9, Data: dns.HTTPS{Priority: 1, Target: "", ALPN: ids, Port: 443}}}}
+		checkPkgMessage(r, pm, "https-alpn-id-octets", false)
+		m := &dnsref.Msg{ID: 12, Flags: 0x8180, Q: []dnsref.Question{{Name: "ids.example", Type: 65, Class: 1}}}
+		m.Sec[0] = []dnsref.RR{{Name: "ids.example", Type: 65, Class: 1, TTL: 9, Fields: dnsref.SVCB(1, "", []dnsref.Param{dnsref.ParamALPN(ids...), dnsref.ParamPort(443)})}}
+		checkRefMessage(r, m, "https-alpn-id-octets")
+	}
+	// (b) values of the wrong SIZE for the keys whose value has a fixed size or is a list of fixed-size items (RFC 9460 7.1.1, 7.2,
+	// 7.3: no-default-alpn has no value, port is exactly two octets, the hints are whole addresses; 2.2: a client MUST treat the
+	// record as malformed): refused, wherever the parameter stands; the well-sized control is accepted
+	{
+		par := func(key uint16, val ...byte) []byte {
+			return append([]byte{byte(key >> 8), byte(key), byte(len(val) >> 8), byte(len(val))}, val...)
+		}
+		type vcase struct {
+			name string
+			p    []byte
+			ok   bool
+		}
+		seq := func(n int) []byte {
+			b := make([]byte, n)
+			for i := range b {
+				b[i] = byte(i + 1)
+			}
+			return b
+		}
+		cases := []vcase{{"control", nil, true}, {"no-default-alpn-empty", par(2), true}, {"port-2", par(3, 1, 187), true}, {"ipv4hint-4", par(4, seq(4)...), true}, {"ipv4hint-8", par(4, seq(8)...), true}, {"ipv6hint-16", par(6, seq(16)...), true}}
+		for _, n := range []int{1, 2} {
+			cases = append(cases, vcase{fmt.Sprintf("no-default-alpn-%d-octets", n), par(2, seq(n)...), false})
+		}
+		for _, n := range []int{0, 1, 3, 4} {
+			cases = append(cases, vcase{fmt.Sprintf("port-%d-octets", n), par(3, seq(n)...), false})
+		}
+		for _, n := range []int{1, 3, 5, 7, 9} {
+			cases = append(cases, vcase{fmt.Sprintf("ipv4hint-%d-octets", n), par(4, seq(n)...), false})
+		}
+		for _, n := range []int{1, 4, 15, 17, 20, 31, 33} {
+			cases = append(cases, vcase{fmt.Sprintf("ipv6hint-%d-octets", n), par(6, seq(n)...), false})
+		}
+		for _, c := range cases {
+			for _, ctx := range []struct {
+				name      string
+				pre, post []byte
+			}{{"alone", nil, nil}, {"after-alpn", par(1, 2, 'h', '2'), nil}, {"before-unknown", nil, par(7, 'x')}, {"between", par(1, 2, 'h', '3'), par(65280, 9)}} {
+				rd := append([]byte{0, 1, 0}, ctx.pre...)
+				rd = append(append(rd, c.p...), ctx.post...)
+				w := []byte{0, 9, 0x81, 0x80, 0, 1, 0, 1, 0, 0, 0, 0, 1, 'v', 7, 'e', 'x', 'a', 'm', 'p', 'l', 'e', 0, 0, 65, 0, 1}
+				w = append(w, 0xc0, 12, 0, 65, 0, 1, 0, 0, 0, 60, byte(len(rd)>>8), byte(len(rd)))
+				w = append(w, rd...)
+				_, err := dns.DecodeMessage(w)
+				oc := "as the sizes say"
+				if (err == nil) != c.ok {
+					oc = "not as the sizes say"
+					what := "is refused"
+					if err == nil {
+						what = "is accepted"
+					}
+					r.Violation("decode-https-value-size:"+c.name, fmt.Sprintf("an HTTPS record whose parameters are %x (%s, %s) %s (%v)", rd[3:], c.name, ctx.name, what, err), fmt.Sprintf("%x", w))
+				}
+				r.Eval("https-value-size:"+c.name+":"+ctx.name, oc)
+			}
+		}
+	}
+
 	// ---- B3 the smallest records there are: a root (or no) question plus option-less OPT records (11 octets each) and nothing else ----
 	for _, q := range [][]dns.Question{nil, {{Name: "", Type: 2, Class: 1}}, {{Name: ".", Type: 2, Class: 1}}} {
 		for nopt := 1; nopt <= 3; nopt++ {
